@@ -404,6 +404,13 @@ func (r *UnitRun) toTerm(st *State, v Val, t types.Type) string {
 		st.assume(not(eq(f, "nil_Fn")))
 		v.Fn.term = f
 		r.pureClosureAxioms(st, v.Fn.unit, f)
+		st.markFresh(f)
+		if au, ok := r.prog.Units[v.Fn.unit.Implements]; ok && au.modifiesGenIdx() {
+			// a generator starts at abstract index 0 (ghost update of the entry of this new function value only)
+			cur := st.ghost["genIdx"]
+			cur.T = sx("store", cur.T, f, zeroIdx)
+			st.ghost["genIdx"] = cur
+		}
 		if cu := v.Fn.unit; len(cu.Yields) > 0 || len(cu.Invariant) > 0 {
 			self := Val{K: KFunc, Fn: &FuncVal{term: f, typ: cu.Sig}}
 			envC := &SpecEnv{run: r, st: st, old: r.entry, bound: map[string]Val{"self": self}}
